@@ -50,6 +50,10 @@ claimed = {
          "At check time /repo's working tree is copied and every range-over-map (31 sites) is rewritten into a choice point owned by the explorer; the repository's own suite is run on the copy as a conformance check. For each of ~115 conflict scenarios (equal identity names, pairs of deviate kinds, two deviating/augmenting modules, augment chains, two revisions, errors over several files, definitions over submodules, pairwise combinations) every permutation of load order x every map-iteration order with <= 1 (thorough 2) deviations from canonical order is executed (71 k executions quick); all executions of a scenario must give the same dump or the same error list, error lists must be ordered and duplicate-free, and the instrumented goyang command must print identical tree/types output under every single deviation.",
          "Trusted: the instrumenter (validated by the suite on the copy each run) and verifrt.Range (snapshot semantics are an admissible Go map order). For maps with > 3 keys only rotations, adjacent transpositions and reversal are tried.",
          "DESIGN.md §3 C05"),
+ "C19": ("stateless schedule exploration under a controlled scheduler (preemption-bounded) with the race detector on every schedule",
+         "At check time /repo's working tree is copied and the sync import of the library is redirected to a shim: every Lock/RLock/Unlock/RUnlock is a scheduling point of a cooperative scheduler, blocked acquires are disabled threads, no enabled thread is a deadlock. Hand-offs between goroutines are raw pipe syscalls in norace code, so the worker, built with -race, has the race detector judge every explored schedule by the library's own synchronisation only. Explored: all multisets of three reader operations (of 10, thorough 15: cache-hit ToEntry, Find of grafted/deep nodes, Namespace, first-time and repeated InstantiatingModule / FindModuleByNamespace for same, different and unknown namespaces, ReadOnly, DefaultValues, GetErrors, Print, full dump) on one shared processed set, 2x2 operation sequences, and 2-3 independent load-process-dump pipelines; every schedule within a preemption bound chosen per scenario from its number of scheduling points (2/1/0 quick, 3/2/1 thorough): 40 k schedules quick. Oracles per schedule: results equal the sequential results, no deadlock, no race report. A free-running -race stress of the same bodies is a cross-check.",
+         "Trusted: the scheduler shim and its invisibility to the race detector (measured: a planted unguarded map is reported, the guarded one is not). Scheduling points are lock operations only; memory-model reorderings between non-synchronising instructions are not permuted. A race report needs one reproduction out of five replays (the detector's shadow memory is bounded), everything else five of five.",
+         "DESIGN.md §3 C19"),
 }
 pending_reason = "check not built yet in this session (see DESIGN.md §12 build order); it will be claimed once its harness exists and is quiet on the unchanged tree"
 not_applicable_reasons = {}
